@@ -29,6 +29,20 @@ fn main() {
     if args[1] == "replay" {
         replay(&args[2]);
     }
+    if args[1] == "corpus-build" {
+        // emit and compile the generated corpus without running it (used by setup.sh to warm up)
+        let tier = Tier::parse(&args[2]).unwrap_or_else(|| mcx::machinery("bad tier"));
+        match c16::build(tier) {
+            c16::Built::Ok(bin, em) => {
+                println!("corpus built: {} ({} types in {} schemas)", bin.display(), em.types, em.schemas);
+                std::process::exit(0);
+            }
+            c16::Built::Violation(c, d) => {
+                println!("corpus does not build: {c}\n{d}");
+                std::process::exit(1);
+            }
+        }
+    }
     let tier = Tier::parse(&args[2]).unwrap_or_else(|| mcx::machinery("bad tier"));
     match args[1].as_str() {
         "C16" => c16::run(tier),
